@@ -149,7 +149,7 @@ def parseFilter (s : DState) : List String → Option (Except Err Filter)
     pure (.ok (Filter.mkEdge a))
   | ["nfu"] => some (.ok .notFromUndef)
   | ["delta", v] => do
-    let (q, _) ← (Val.parse v) >>= numParts?
+    let q ← (Val.parse v) >>= xnumOf?
     pure (.ok (Filter.mkDelta q))
   | ["ifout", b] => some (Filter.mkIfOutput (s.kindOf b) b)
   | ["ifnotinit", b] => some (Filter.mkIfNotInitialized (s.kindOf b) b)
